@@ -269,6 +269,40 @@ def c_ref_guard_deref(ex, st, callee, a):
     return [(None, v)]
 
 
+# OnceCell<T> as a one-field aggregate holding Option<T> in place
+@contract(r'^(?:std::cell::|core::cell::)?OnceCell::<.*>::new$')
+def c_oncecell_new(ex, st, callee, a): return [(None, adt('OnceCell', None, NONE))]
+
+
+@contract(r'^(?:std::cell::|core::cell::)?OnceCell::<.*>::get$', r'^(?:std::cell::|core::cell::)?OnceCell::<.*>::get_mut$')
+def c_oncecell_get(ex, st, callee, a):
+    r = _inner_ref(st, a[0]); cur = get_path(st.store[r[1]], r[2])
+    if cur[2] == 'None': return [(None, NONE)]
+    return [(None, some(('ref', r[1], r[2] + (('f', 0),))))]
+
+
+@contract(r'^(?:std::cell::|core::cell::)?OnceCell::<.*>::set$')
+def c_oncecell_set(ex, st, callee, a):
+    r = _inner_ref(st, a[0]); cur = get_path(st.store[r[1]], r[2])
+    if cur[2] != 'None': return [(None, err(a[1]))]
+    st.store[r[1]] = set_path(st.store[r[1]], r[2], some(a[1])); return [(None, ok(UNIT))]
+
+
+@contract(r'^(?:std::cell::|core::cell::)?OnceCell::<.*>::take$')
+def c_oncecell_take(ex, st, callee, a):
+    r = _inner_ref(st, a[0]); cur = get_path(st.store[r[1]], r[2]); st.store[r[1]] = set_path(st.store[r[1]], r[2], NONE); return [(None, cur)]
+
+
+@contract(r'^(?:std::cell::|core::cell::)?OnceCell::<.*>::get_or_init::<')
+def c_oncecell_get_or_init(ex, st, callee, a):
+    r = _inner_ref(st, a[0]); cur = get_path(st.store[r[1]], r[2])
+    if cur[2] != 'None': return [(None, ('ref', r[1], r[2] + (('f', 0),)))]
+    outs = []
+    for s2, val in call_closure(ex, st, a[1], callee, []):
+        s2.store[r[1]] = set_path(s2.store[r[1]], r[2], some(val)); outs.append((None, ('ref', r[1], r[2] + (('f', 0),)), s2))
+    return outs
+
+
 @contract(r'^(?:std::cell::|core::cell::)?RefCell::<.*>::replace$', r'^(?:std::cell::|core::cell::)?Cell::<.*>::replace$')
 def c_refcell_replace(ex, st, callee, a):
     r = _inner_ref(st, a[0]); old = get_path(st.store[r[1]], r[2]); st.store[r[1]] = set_path(st.store[r[1]], r[2], a[1]); return [(None, old)]
@@ -830,6 +864,32 @@ def c_b64_encode_string(ex, st, callee, a):
 
 @contract(r'^(?:std::string::)?String::with_capacity$')
 def c_string_with_capacity(ex, st, callee, a): return [(None, StringVal(''))]
+
+
+from_utf8_lossy_f = Function('from_utf8_lossy', Bytes, S)      # total; equals from_utf8 on valid input (not needed by any obligation so far)
+
+
+@contract(r'^(?:std::string::)?String::from_utf8_lossy$')
+def c_from_utf8_lossy(ex, st, callee, a): return [(None, from_utf8_lossy_f(as_bytes(st, a[0])))]
+
+
+@contract(r'^<(?:std::borrow::)?Cow<.*str> as (Deref|AsRef<str>|ToString|Into<std::string::String>|Clone)>::(deref|as_ref|to_string|into|clone)$', r'^(?:std::borrow::)?Cow::<.*str>::(into_owned|to_mut)$')
+def c_cow_str(ex, st, callee, a):
+    d = deref(st, a[0]); return [(None, d if is_expr(d) else a[0])]
+
+
+@contract(r'^core::num::<impl (usize|u64|u32|u8)>::saturating_sub$')
+def c_saturating_sub(ex, st, callee, a): return [(None, If(a[0] >= a[1], a[0] - a[1], IntVal(0)))]
+
+
+@contract(r'^core::num::<impl (usize|u64|u32|u8)>::checked_sub$')
+def c_checked_sub(ex, st, callee, a): return [(a[0] >= a[1], some(a[0] - a[1])), (a[0] < a[1], NONE)]
+
+
+@contract(r'^core::num::<impl (usize|u64|u32|u8)>::(min|max)$', r'^<(usize|u64|u32|u8) as Ord>::(min|max)$', r'^(?:std::cmp::|core::cmp::)?(min|max)::<(usize|u64|u32|u8)>$')
+def c_minmax(ex, st, callee, a):
+    mn = 'min' in callee.split('::')[-1] or callee.split('::<')[0].endswith('min')
+    return [(None, If(a[0] <= a[1], a[0], a[1]) if mn else If(a[0] >= a[1], a[0], a[1]))]
 
 
 @contract(r'^core::num::<impl usize>::div_ceil$', r'^usize::div_ceil$')
